@@ -14,6 +14,7 @@ CONSTANTS
   ReadMax = {4}
   Closers = {}
   MuxDroppers = {"A", "B"}
+  Cancellers = {}
   DgSenders = {}
   MaxDgrams = 0
   Binders = {}
